@@ -1,6 +1,6 @@
 #!/bin/bash
-# Scratch triage copy of the harness (never used for registered checks or evidence): /tmp/mq/verif builds against /tmp/mq/repo.
-mkdir -p /tmp/mq/verif
-rsync -a --delete --exclude mc/target --exclude .git --exclude replays --exclude evidence /verif/ /tmp/mq/verif/
-mkdir -p /tmp/mq/verif/evidence /tmp/mq/verif/replays
-sed -i 's|path = "/repo"|path = "/tmp/mq/repo"|' /tmp/mq/verif/mc/Cargo.toml
+# Scratch triage copy of the harness (never used for registered checks or evidence): ${MQ:-/tmp/mq}/verif builds against ${MQ:-/tmp/mq}/repo.
+mkdir -p ${MQ:-/tmp/mq}/verif
+rsync -a --delete --exclude mc/target --exclude .git --exclude replays --exclude evidence /verif/ ${MQ:-/tmp/mq}/verif/
+mkdir -p ${MQ:-/tmp/mq}/verif/evidence ${MQ:-/tmp/mq}/verif/replays
+sed -i 's|path = "/repo"|path = "'"${MQ:-/tmp/mq}"'/repo"|' ${MQ:-/tmp/mq}/verif/mc/Cargo.toml
